@@ -214,11 +214,11 @@ redesign of the exported network with con_out = 2: `add_connector_loss` is not i
 theorem redesign_eol_counterexample :
     ∃ (l : List (Elem ℝ)), addConn 0 0 1 (addConn 0 0 1 l) ≠ addConn 0 0 1 l ∧
       (addConn 0 0 1 l).map Elem.loss = [17] ∧ (addConn 0 0 1 (addConn 0 0 1 l)).map Elem.loss = [18] := by
-  refine ⟨[.fiber "f" { length := 80, lossCoef := 0.2, conIn := none, conOut := none, attIn := 0, lumped := 0,
+  refine ⟨[.fiber "f" { length := 80, lossCoef := 0.2, conIn := none, conOut := none, attIn := 0, lumps := [],
                         raman := false, ramanGain := none, dsl := none }], ?_, ?_, ?_⟩
   · simp [addConn]
-  · simp [addConn, Elem.loss, FiberP.loss]; norm_num
-  · simp [addConn, Elem.loss, FiberP.loss]; norm_num
+  · simp [addConn, Elem.loss, FiberP.loss, FiberP.lumped, sumLeft_eq_sum]; norm_num
+  · simp [addConn, Elem.loss, FiberP.loss, FiberP.lumped, sumLeft_eq_sum]; norm_num
 
 /-! ### SimParams -/
 
